@@ -657,6 +657,63 @@ def run(ctx):
             ctx.undec('R-DIAGFILTER', 'filter', wb1, 'filter outside the evaluated fragment')
         else:
             ctx.ok('R-DIAGFILTER', 'filter', wb1, norm(comps[0].ifs[0]))
+    # ---- R-RESERVEDKEEP: the free-text RESERVED field is carried as it was read (the writer pads it on the right only)
+    ctx.rule('R-RESERVEDKEEP', 'first reader: the RESERVED text of a block header is kept with its leading blanks (the writer re-pads on the right only)')
+    ml = bm.func('_tracer_lookup.__missing__')
+    wml = 'src/PseudoNetCDF/%s _tracer_lookup.__missing__' % B
+    rsv = [st for st in iter_stmts(ml.body) if isinstance(st, ast.Assign) and isinstance(st.targets[0], ast.Name) and st.targets[0].id == 'reserved']
+    if not rsv:
+        ctx.undec('R-RESERVEDKEEP', 'reserved', wml, 'no assignment to `reserved`')
+    for st in rsv:
+        cut = [c for c in walk_expr(st.value) if isinstance(c, ast.Call) and isinstance(c.func, ast.Attribute) and c.func.attr in ('strip', 'lstrip', 'split', 'replace')]
+        if cut:
+            ctx.violation(Finding('R-RESERVEDKEEP', B, '_tracer_lookup.__missing__', st, 'the RESERVED text is edited on reading (.%s()): the writer pads it back with ljust(40), so a right-justified text is '
+                                  'written left-justified and a read-write cycle does not reproduce the header bytes' % cut[0].func.attr))
+        else:
+            ctx.ok('R-RESERVEDKEEP', 'reserved', wml, norm(st)[:50])
+    # ---- R-DIMPERBLOCK: the record type of a block is built from the dimensions in that block's own header
+    ctx.rule('R-DIMPERBLOCK', 'first reader: every data record type is built from a `dim` that was taken from the current header in the same branch')
+    b1 = bm.func('bpch1.__init__')
+    ndp = 0
+    for n_ in [x for x in ast.walk(b1) if isinstance(x, ast.Call) and dotted(x.func) == 'dtype' and x.args and 'dim' in [y.id for y in ast.walk(x.args[0]) if isinstance(y, ast.Name)]]:
+        st = api.stmt_of(n_)
+        blk = getattr(st, '_parent', None)
+        body = None
+        for f_ in ('body', 'orelse'):
+            lst = getattr(blk, f_, None)
+            if isinstance(lst, list) and st in lst:
+                body = lst
+        ndp += 1
+        fresh = body is not None and any(isinstance(s2, ast.Assign) and any(isinstance(t, ast.Name) and t.id == 'dim' for t in s2.targets) and 'header' in norm(s2.value)
+                                         for s2 in body[:body.index(st)])
+        if fresh:
+            ctx.ok('R-DIMPERBLOCK', 'dtype@%d' % ndp, wb1, 'dim assigned from the header in the same branch')
+        else:
+            ctx.violation(Finding('R-DIMPERBLOCK', B, 'bpch1.__init__', st, 'the record type uses `dim` without taking it from the current header first: it still holds the dimensions of the previous block, so a '
+                                  'last tracer with another layer count is mapped with the wrong shape (or the size assertion fails on a valid file)'))
+    ctx.floor('record types built from dim', ndp, 2)
+    # ---- R-GROUPFIRST: inside a group a name means the variable of that group; the plain key is the fallback (shared coordinates)
+    ctx.rule('R-GROUPFIRST', 'group view: a key is looked up as <group>_<key> first and under its plain name only when that fails')
+    gv = [f_ for q_, f_ in bm.functions.items() if q_.endswith('getvar') and '_diag_group' in q_]
+    wgv = 'src/PseudoNetCDF/%s _diag_group.__init__.getvar' % B
+    if not gv:
+        ctx.undec('R-GROUPFIRST', 'getvar', wgv, 'function not found')
+    for f_ in gv[:1]:
+        tries = [x for x in ast.walk(f_) if isinstance(x, ast.Try)]
+        first = None
+        if tries:
+            rets = [x for x in ast.walk(ast.Module(body=tries[0].body, type_ignores=[])) if isinstance(x, ast.Return)]
+            first = norm(rets[0].value) if rets else None
+        else:
+            rets = [x for x in ast.walk(f_) if isinstance(x, ast.Return)]
+            first = norm(rets[0].value) if rets else None
+        if first is None:
+            ctx.undec('R-GROUPFIRST', 'getvar', wgv, 'lookup order not recognised')
+        elif 'template' in first or '%' in first:
+            ctx.ok('R-GROUPFIRST', 'getvar', wgv, 'first: %s' % first[:50])
+        else:
+            ctx.violation(Finding('R-GROUPFIRST', B, f_.name if hasattr(f_, 'name') else 'getvar', f_.body[0], 'the plain key is tried on the parent first (%s): with nogroup=[one category] the plain name belongs '
+                                  'to that category, so another group that shares tracer names silently presents the wrong data, scale and tracer id' % first[:40]))
     # ---- shared pads + API
     c09.check_bpch_pads(ctx)
     nf = 0
